@@ -257,7 +257,7 @@ func checkC11(c *ctx) {
 			c.Sample(map[string]interface{}{"goroutines": g, "concurrent_merges": merges, "segment": e.prov, "docs": e.n, "history_before": len(calls)})
 		}
 		var wg sync.WaitGroup
-		errs := make(chan string, g+merges+4)
+		errs := make(chan string, g+merges+8)
 		start := make(chan struct{})
 		for j := 0; j < g; j++ {
 			wg.Add(1)
@@ -335,6 +335,29 @@ func checkC11(c *ctx) {
 				if d := partsDiffer(cont.Sx(), mspec, allParts); len(d) > 0 {
 					errs <- "a merge running concurrently with readers produced wrong content in " + fmt.Sprint(d) + "\n" + describeDiff(cont.Sx(), mspec, allParts)
 				}
+			}()
+		}
+		// and, half of the time, a merge of the same inputs that is abandoned at a random write
+		if c.R.Bool() {
+			wg.Add(1)
+			total := len(segBytes(e)) + 64
+			k := uint64(c.R.Intn(total))
+			c.Count("concurrent_abandoned_merges")
+			go func() {
+				defer wg.Done()
+				<-start
+				ch := make(chan struct{})
+				cl := &closer{k: k, ch: ch}
+				path := zh.TmpPath("c11a")
+				func() {
+					defer func() {
+						if r := recover(); r != nil {
+							errs <- fmt.Sprintf("a merge abandoned after %d bytes panicked: %v", k, r)
+						}
+					}()
+					zap.VerifMerge(mergeSegs, mergeDrops, path, 1026, ch, cl)
+				}()
+				os.Remove(path)
 			}()
 		}
 		close(start)
